@@ -12,6 +12,8 @@ NOTES = {
 }
 
 def base_of(sid):
+    if "-r3" in sid:
+        return "2c7e47f"
     if sid in ("C04-r2m1", "C04-r2m2", "C16-r2m1", "C16-r2m2"):
         return "f4dbe85"
     if "-r2" in sid and sid.split("-")[0] in ("C01", "C02", "C05", "C06", "C07", "C08", "C09", "C10", "C12", "C17", "C18", "C20"):
@@ -41,7 +43,7 @@ def main():
             "id": sid, "property": prop, "summary": title, "files_changed": files,
             "needs_to_manifest": section(readme, r"What is needed") or section(readme, r"(When|Conditions|Trigger)"),
             "breaks": section(readme, r"Which part of"),
-            "origin": "written by a fresh sub-agent (round %s) that was given only the text of %s and a scratch worktree of /repo at commit %s" % ("2" if "-r2" in sid else "1", prop, base_of(sid)),
+            "origin": "written by a fresh sub-agent (round %s) that was given only the text of %s and a scratch worktree of /repo at commit %s" % ("3" if "-r3" in sid else "2" if "-r2" in sid else "1", prop, base_of(sid)),
             "base_commit": base_of(sid),
             "confirmed_by_me": None if confirm is None else {
                 "how": "tools/confirm_seed.sh in scratch worktree /tmp/wt-confirm at the seed's base commit: demo test without the change, with the change, then cargo test --workspace --no-fail-fast --offline with the change",
